@@ -32,10 +32,10 @@ QWidget {{
 VARIANTS = [("value", "ret"), ("value", "completion"), ("value", "bare"), ("void", None)]
 
 
-def make_doc(skeleton, context, wrapper, label_style="const"):
-    r = progs.Renderer(context, wrapper or "ret", label_style)
+def make_doc(skeleton, context, wrapper, label_style="const", void_expr="call", sink=None):
+    r = progs.Renderer(context, wrapper or "ret", label_style, void_expr)
     text, _ast = r.program(skeleton)
-    name = "ri" if context == "value" else "onFired"
+    name = sink or ("ri" if context == "value" else "onFired")
     return DOC.format(binding=f"{name}: {text}")
 
 
@@ -113,6 +113,21 @@ def judge(t, vd, cid, src, meta):
         raise vc.MachineryError(f"cannot parse an emitted body ({e}); header:\n{g['header'][:3000]}")
 
 
+def has_tag(lst, tag):
+    for s in lst:
+        if s[0] == tag:
+            return True
+        if s[0] in ("BL", "SH") and has_tag(s[1], tag):
+            return True
+        if s[0] == "I" and has_tag(s[2], tag):
+            return True
+        if s[0] == "IE" and (has_tag(s[2], tag) or has_tag(s[3], tag)):
+            return True
+        if s[0] == "SW" and any(has_tag(b, tag) for _l, b in s[1]):
+            return True
+    return False
+
+
 def has_two_case_switch(s):
     tag = s[0]
     if tag == "SW":
@@ -158,6 +173,23 @@ def shard_work(shard, nshards, payload):
             if k % nshards == shard:
                 judge(t, vd, f"deep+tail/{k}", make_doc(sk2, "value", "bare"),
                       {"context": "value", "wrapper": "bare", "skeleton": repr(sk2)})
+            k += 1
+    # callbacks whose expression statements are values that are computed and dropped (literal, enum, object id,
+    # property read) instead of calls
+    for sk in progs.skeletons(kmax, conds=("c",)):
+        if not has_tag(sk, "E"):
+            continue
+        for style in ("literal", "enum", "object", "read"):
+            if k % nshards == shard:
+                judge(t, vd, f"void-expr/{k}", make_doc(sk, "void", None, "const", style),
+                      {"context": "void", "void_expr": style, "skeleton": repr(sk)})
+            k += 1
+    # value bodies bound to a member of a grouped value (own evaluation function per member)
+    for sk in progs.skeletons(kmax - 1):
+        for wr in ("ret", "bare", "completion"):
+            if k % nshards == shard:
+                judge(t, vd, f"member/{k}", make_doc(sk, "value", wr, sink="font.pointSize"),
+                      {"context": "value", "wrapper": wr, "sink": "font.pointSize", "skeleton": repr(sk)})
             k += 1
     # case labels that span several basic blocks (?:, &&, ||), in every clause position
     for sk in progs.skeletons(kmax, conds=("c",)):
